@@ -1,9 +1,14 @@
 package main
 
+import "os"
+
 // Counterexample replay against the real code (see replay templates under
 // /verif/replay). Filled in per function; without a template the verdict is
 // "no-input".
 
 func runReplay(verif, repo string, ps *PropSpec, o *Obligation) (string, map[string]interface{}) {
+	if os.Getenv("GOVC_NO_REPLAY") != "" {
+		return "no-input", map[string]interface{}{"replay": "replay disabled (GOVC_NO_REPLAY)"}
+	}
 	return replayObligation(verif, repo, ps, o)
 }
